@@ -108,6 +108,15 @@ theorem sync_commit_recorded_msgs (s : CState) (h : CReachable s) (r : Req) (hr 
     ∃ i offs, s.sent[i]? = some (offs, true) ∧ r.sentAtCall ≤ i ∧ ∃ o, (m.1, o) ∈ offs ∧ m.2 + 1 ≤ o :=
   sync_commit_recorded s h r hr (makeCommit m) hm
 
+/-- The statement of the property itself: when a SYNCHRONOUS `CommitMessages` call returns nil (`(id, true) ∈ rets`), it
+was the call of some request `r` with that id, and for every message of it the coordinator has acknowledged — in a request
+issued after the call began — an offset ≥ message offset + 1 for its partition. -/
+theorem sync_commitMessages_nil_recorded (s : CState) (h : CReachable s) (id : Nat) (hr : (id, true) ∈ s.rets) :
+    ∃ r : Req, r.id = id ∧ ∀ c ∈ r.commits, ∃ i offs, s.sent[i]? = some (offs, true) ∧ r.sentAtCall ≤ i ∧
+      ∃ o, (c.tp, o) ∈ offs ∧ c.offset ≤ o := by
+  obtain ⟨r, h1, h2⟩ := retok_reachable s h (id, true) hr
+  exact ⟨r, h1, sync_commit_recorded s h r h2⟩
+
 /-- the stash is a map: its keys stay unique under every event sequence -/
 theorem stash_keys_unique (s : CState) (h : CReachable s) : Uniq s.stash := (sinv_reachable s h).uniq
 
